@@ -260,6 +260,8 @@ def rule_E3(run, prog, E):
     from . import c17
     from ..report import RuleProxy
     c17.rule_D(RuleProxy(run, rid, keep=lambda c, k: k in ("inputs-intact", "no-inplace")), prog)
+    stored_inputs_intact(run, rid, prog, TENSORS + list(PROPS))
+
 
     def judge(f, found):
         nonlocal nfun
@@ -446,3 +448,33 @@ def rule_E4(run, prog):
         [norm(s) for s in bm.methods["unprotect_basis"].node.body] == ["self.is_basis_protected = False"]
     run.obligation(rid, "BasisManaged.protect_basis", ok, key="flag-pair",
                    message="protect/unprotect must set and clear the same flag", loc=bm.module.relpath)
+
+
+def stored_inputs_intact(run, rid, prog, classes):
+    """An object that keeps an array of one of its arguments without a copy (directly, through a local, through a
+    helper that stores what it is handed) must never write into it in place - not in the constructor and not in
+    any later method (a basis transformation of the stored operators, say): the argument belongs to the caller and
+    to every other object built from it."""
+    from .. import arrays
+    n = 0
+    for q in classes:
+        cls = prog.cls(q)
+        res, methods = arrays.stored_input_aliases(prog, cls)
+        writes = arrays.inplace_writes_to_attributes(methods, set(res))
+        by_attr = {}
+        for fn, node, text in writes:
+            for a in res:
+                if ("self.%s" % a) in text or ("self._%s" % a.lstrip("_")) in text:
+                    by_attr.setdefault(a, []).append((fn, node, text))
+        for a, (desc, sf, snode) in sorted(res.items()):
+            n += 1
+            prog.consulted.add(sf.relpath)
+            w = by_attr.get(a, [])
+            run.obligation(rid, "%s.%s" % (cls.name, a), not w, key="stored-input-intact",
+                           message="%s keeps %s as self.%s without a copy and %s writes into it in place (%s): the caller's "
+                                   "array, and every other object built from the same argument, is changed"
+                                   % (cls.name, desc, a, w[0][0].short if w else "", w[0][2] if w else ""),
+                           loc=(w[0][0].loc(w[0][1]) if w else sf.loc(snode)),
+                           sample={"class": cls.name, "attribute": a, "bound_to": desc})
+    if n < 20:
+        raise AnalysisError("stored-input analysis found only %d attributes bound to arguments" % n)
